@@ -75,6 +75,8 @@ func verifTermState(t *Terminal, m map[string]interface{}) {
 	m["cy"] = t.cy
 	m["offset"] = t.offset
 	m["xoffset"] = t.xoffset
+	m["cols"] = t.areaColumns
+	m["lines"] = t.areaLines
 	m["multi"] = t.multi
 	sel := []int32{}
 	for _, s := range t.sortSelected() {
